@@ -1,11 +1,16 @@
 package nomsim
 
 import (
+	"fmt"
+	"math/big"
+
 	"github.com/zenon-network/go-zenon/chain/genesis"
 	g "github.com/zenon-network/go-zenon/chain/genesis/mock"
 	"github.com/zenon-network/go-zenon/chain/nom"
 	"github.com/zenon-network/go-zenon/common/types"
+	"github.com/zenon-network/go-zenon/vm/constants"
 	"github.com/zenon-network/go-zenon/vm/embedded/definition"
+	"github.com/zenon-network/go-zenon/wallet"
 
 	"verif/sim/simnode"
 )
@@ -56,4 +61,62 @@ func (gn *Gen) ActivateSpork(n *simnode.Node, id types.Hash, from types.Address)
 
 func (gn *Gen) CreateSpork(n *simnode.Node, from types.Address, name string) *nom.AccountBlock {
 	return gn.do(n, "spork.CreateSpork", from, types.SporkContract, types.ZnnTokenStandard, nil, definition.ABISpork.PackMethodPanic(definition.SporkCreateMethodName, name, "created in run"))
+}
+
+// ManyPillarsGenesis extends the mock genesis with extra registered pillars
+// (keys derived from fixed entropy) so that elections with more pillars than
+// slots, equal weights and zero-weight pillars occur. weights[i] is the ZNN
+// balance (whole coins) the i-th extra pillar's own backer account holds.
+func ManyPillarsGenesis(mode SporkMode, weights []int64) (*genesis.GenesisConfig, []*wallet.KeyPair) {
+	c := MockGenesis(mode)
+	pc := *c.PillarConfig
+	pc.Pillars = append([]*definition.PillarInfo(nil), c.PillarConfig.Pillars...)
+	pc.Delegations = append([]*definition.DelegationInfo(nil), c.PillarConfig.Delegations...)
+	gb := &genesis.GenesisBlocksConfig{Blocks: append([]*genesis.GenesisBlockConfig(nil), c.GenesisBlocks.Blocks...)}
+	tc := &genesis.TokenContractConfig{}
+	for _, t := range c.TokenConfig.Tokens {
+		cp := *t
+		cp.TotalSupply = new(big.Int).Set(t.TotalSupply)
+		tc.Tokens = append(tc.Tokens, &cp)
+	}
+	var keys []*wallet.KeyPair
+	entropy := []byte{0x42, 0x23, 0x45, 0x67, 0x89, 0x01, 0x23, 0x45, 0x67, 0x89, 0x01, 0x23, 0x45, 0x67, 0x89, 0x77}
+	extraZnn := new(big.Int)
+	for i, wgt := range weights {
+		kp, err := wallet.DeriveWithIndex(uint32(i+1), entropy)
+		if err != nil {
+			panic(err)
+		}
+		keys = append(keys, kp)
+		name := fmt.Sprintf("SIM-extra-%02d", i)
+		pc.Pillars = append(pc.Pillars, &definition.PillarInfo{Name: name, BlockProducingAddress: kp.Address, StakeAddress: kp.Address,
+			RewardWithdrawAddress: kp.Address, Amount: new(big.Int).Set(constants.PillarStakeAmount), RegistrationTime: c.GenesisTimestampSec,
+			GiveBlockRewardPercentage: 0, GiveDelegateRewardPercentage: 100, PillarType: definition.NormalPillarType})
+		pc.Delegations = append(pc.Delegations, &definition.DelegationInfo{Name: name, Backer: kp.Address})
+		bal := new(big.Int).Mul(big.NewInt(wgt), big.NewInt(g.Zexp))
+		gb.Blocks = append(gb.Blocks, &genesis.GenesisBlockConfig{Address: kp.Address, BalanceList: map[types.ZenonTokenStandard]*big.Int{types.ZnnTokenStandard: bal}})
+		extraZnn.Add(extraZnn, bal)
+		extraZnn.Add(extraZnn, constants.PillarStakeAmount)
+	}
+	// the pillar contract holds the collateral of every registered pillar
+	for i, b := range gb.Blocks {
+		if b.Address == types.PillarContract {
+			nb := &genesis.GenesisBlockConfig{Address: b.Address, BalanceList: map[types.ZenonTokenStandard]*big.Int{}}
+			for z, v := range b.BalanceList {
+				nb.BalanceList[z] = new(big.Int).Set(v)
+			}
+			add := new(big.Int).Mul(constants.PillarStakeAmount, big.NewInt(int64(len(weights))))
+			nb.BalanceList[types.ZnnTokenStandard] = new(big.Int).Add(nb.BalanceList[types.ZnnTokenStandard], add)
+			gb.Blocks[i] = nb
+		}
+	}
+	for _, t := range tc.Tokens {
+		if t.TokenStandard == types.ZnnTokenStandard {
+			t.TotalSupply.Add(t.TotalSupply, extraZnn)
+		}
+	}
+	c.PillarConfig = &pc
+	c.GenesisBlocks = gb
+	c.TokenConfig = tc
+	return c, keys
 }
